@@ -57,11 +57,12 @@ def errorScore : DialErr → Int
   | _ => scoreFailure
 
 /-- `is_global_multiaddr` on the addresses the harness uses: `ip4 n` with `n ≥ 256` stands for a
-public address, smaller `n` for `10.0.0.n`, `ip6 n` for a unique-local address, DNS names count as
-public. -/
+public address, smaller `n` for `10.0.0.n` (`0.0.0.0` for 0), `n ≥ 99990` for the boundary targets
+(broadcast, loopback, multicast, link-local: none of them global), `ip6 n` for a unique-local address,
+DNS names count as public. -/
 def isGlobal : Multiaddr → Bool
   | [] => false
-  | .ip4 n :: _ => decide (256 ≤ n)
+  | .ip4 n :: _ => decide (256 ≤ n ∧ n < 99990)
   | .ip6 _ :: _ => false
   | .dns _ :: _ => true
   | .dns4 _ :: _ => true
